@@ -1,18 +1,39 @@
 import MinterModel
 /-
   Line-protocol driver. Reads ops from stdin (see harness/run.go), keeps the Go-side view of the
-  state, evaluates the property monitors on it and (for modelled ops) runs the model next to it.
+  state, evaluates the property monitors on it and runs the model next to it for modelled ops.
   Every op is answered with zero or more lines followed by a line ".".
+  Oracle questions are written as "?<query>" and answered by the next input line "!<int>".
 -/
 open Minter
 
 def chomp (s : String) : String := String.ofList (s.toList.filter (fun c => c != '\n' && c != '\r'))
 
+def hexDigitChar (n : Nat) : Char := if n < 10 then Char.ofNat (48 + n) else Char.ofNat (87 + n)
+
+def toHexPad (n : Nat) (width : Nat) : String :=
+  let rec go (fuel : Nat) (n : Nat) (acc : List Char) : List Char :=
+    match fuel with
+    | 0 => acc
+    | fuel + 1 => go fuel (n / 16) (hexDigitChar (n % 16) :: acc)
+  String.ofList (go width n [])
+
 structure DState where
   dump : Dump := {}
   committed : Option State := none   -- Go state at the previous commit
+  model : Option State := none       -- model state (none = not in sync, wait for the next commit)
+  staleOther : Bool := false         -- parts outside the live projection (stakes, orders, …) may be out of date
+  pendingMerge : Bool := false       -- the last tx was not modelled: adopt Go's live projection at the next delta
+  params : Params := {}
+  block : Nat := 0
+  touched : List String := []        -- dump keys the last modelled plan touched
+  oracle : List (OQ × Int) := []
   nCommits : Nat := 0
   nOps : Nat := 0
+  nModelled : Nat := 0
+  nUnmodelled : Nat := 0
+  nStaleSkipped : Nat := 0
+  nOracle : Nat := 0
 
 def kv (line : String) : List (String × String) :=
   (words line).filterMap (fun w => match w.splitOn "=" with
@@ -21,41 +42,190 @@ def kv (line : String) : List (String × String) :=
 
 def kvGet (l : List (String × String)) (k : String) : String := (l.lookup k).getD ""
 
-partial def readDelta (h : IO.FS.Stream) (d : Dump) : IO Dump := do
+partial def readDelta (h : IO.FS.Stream) (d : Dump) (keys : List String) : IO (Dump × List String) := do
   let line ← h.getLine
-  if line.isEmpty then return d
+  if line.isEmpty then return (d, keys)
   let l := chomp line
-  if l == "." then return d
-  readDelta h (d.applyLine l)
+  if l == "." then return (d, keys)
+  let key := match l.toList with
+    | '=' :: rest => ((String.ofList rest).splitOn "\t").headD ""
+    | '-' :: rest => String.ofList rest
+    | _ => ""
+  readDelta h (d.applyLine l) (key :: keys)
 
 def fmtViol (v : Coin × Int × Int) : String := s!"coin={v.1} volume={v.2.1} holdings={v.2.2}"
 
+def primKeys : Prim → List String
+  | .addBal a c _ => [s!"b {toHexPad a 40} {c}"]
+  | .addVolume c _ => [s!"c {c}"]
+  | .addReserve c _ => [s!"c {c}"]
+  | .setNonce a _ => [s!"n {toHexPad a 40}"]
+  | .createCoin ci => [s!"c {ci.id}"]
+  | .addSlashed _ => ["app slashed"]
+  | .addRewards _ => ["app rewards"]
+  | .addPool c0 c1 _ _ => [s!"p {c0} {c1}"]
+  | .createPool p => [s!"p {p.c0} {p.c1}"]
+  | _ => []
+
+/-- Compare the model with the Go view on the live projection keys. -/
+def projMismatch (m : State) (d : Dump) (keys : List String) : List String :=
+  keys.eraseDups.filterMap (fun k =>
+    match words k with
+    | ["b", a, c] =>
+      let g := intD ((d.get? k).getD "0")
+      let v := balanceOf m (hexNat a) (natD c)
+      if g == v then none else some s!"{k} model={v} go={g}"
+    | ["n", a] =>
+      let g := natD ((d.get? k).getD "0")
+      let v := nonceOf m (hexNat a)
+      if g == v then none else some s!"{k} model={v} go={g}"
+    | ["c", id] =>
+      match d.get? k, getCoin m (natD id) with
+      | some gv, some ci =>
+        match words gv with
+        | [_, _, vol, res, _, _, _, _, _] =>
+          if intD vol == ci.volume && intD res == ci.reserve then none
+          else some s!"{k} model=vol:{ci.volume},res:{ci.reserve} go=vol:{vol},res:{res}"
+        | _ => none
+      | none, none => none
+      | some _, none => some s!"{k} model=absent go=present"
+      | none, some _ => some s!"{k} model=present go=absent"
+    | ["app", "slashed"] =>
+      let g := intD ((d.get? k).getD "0")
+      if g == m.slashed then none else some s!"{k} model={m.slashed} go={g}"
+    | ["app", "rewards"] =>
+      let g := intD ((d.get? k).getD "0")
+      if g == m.rewardsPool then none else some s!"{k} model={m.rewardsPool} go={g}"
+    | ["p", c0, c1] =>
+      match d.get? k, getPool m (natD c0) (natD c1) with
+      | some gv, some p =>
+        match words gv with
+        | [_, r0, r1] => if intD r0 == p.r0 && intD r1 == p.r1 then none else some s!"{k} model={p.r0},{p.r1} go={r0},{r1}"
+        | _ => none
+      | none, none => none
+      | some _, none => some s!"{k} model=absent go=present"
+      | none, some _ => some s!"{k} model=present go=absent"
+    | _ => none)
+
+/-- Adopt Go's live projection (balances, nonces, coins, pools, slashed, fee pool) and keep the rest of the model. -/
+def mergeProjection (m : State) (d : Dump) : State :=
+  let g := State.ofDump d
+  { m with balances := g.balances, nonces := g.nonces, coins := g.coins, pools := g.pools, slashed := g.slashed,
+           rewardsPool := g.rewardsPool, ncoins := g.ncoins }
+
+def oqLine : OQ → String
+  | .saleAmount v r c w => s!"saleAmount {v} {r} {c} {w}"
+  | .saleReturn v r c w => s!"saleReturn {v} {r} {c} {w}"
+  | .purchaseReturn v r c w => s!"purchaseReturn {v} {r} {c} {w}"
+  | .purchaseAmount v r c w => s!"purchaseAmount {v} {r} {c} {w}"
+
+/-- Run the model's DeliverTx, asking the harness for oracle values as needed. -/
+partial def runDeliver (h out : IO.FS.Stream) (ds : DState) (m : State) (t : TxIn) (fuel : Nat) :
+    IO (DState × Except Stop Outcome) := do
+  let orc : Oracle := fun q => ds.oracle.lookup q
+  match deliverTx ds.params orc m ds.block t with
+  | .error (.need q) =>
+    if fuel == 0 then return (ds, .error (.unmodelled "oracle loop"))
+    out.putStrLn ("?" ++ oqLine q)
+    out.flush
+    let ans ← h.getLine
+    let a := chomp ans
+    match (String.ofList (a.toList.drop 1)).toInt? with
+    | some v => runDeliver h out { ds with oracle := (q, v) :: ds.oracle, nOracle := ds.nOracle + 1 } m t (fuel - 1)
+    | none => return (ds, .error (.unmodelled s!"oracle answer {a}"))
+  | r => return (ds, r)
+
 partial def loop (h : IO.FS.Stream) (out : IO.FS.Stream) (ds : DState) : IO Unit := do
   let line ← h.getLine
-  if line.isEmpty then return ()
+  if line.isEmpty then
+    return ()
   let l := chomp line
   let ws := words l
   match ws with
+  | "P" :: _ =>
+    let a := kv l
+    let n := fun k d => if kvGet a k == "" then d else natD (kvGet a k)
+    let p : Params := { chain := n "chain" 2, period := n "period" 12, expire := n "expire" 30, unbond := n "unbond" 531,
+                        move := n "move" 177, jail := n "jail" 354, initial := n "initial" 10200001 }
+    out.putStrLn "."
+    out.flush
+    loop h out { ds with params := p }
   | "S" :: kind :: _ =>
-    let d ← readDelta h ds.dump
+    let (d, keys) ← readDelta h ds.dump []
     let mut ds := { ds with dump := d, nOps := ds.nOps + 1 }
     if kind == "commit" || kind == "init" || kind == "restart" then
       let st := State.ofDump d
-      -- C01 custom coins
       for v in volumeViolations st do
         out.putStrLn s!"VIOL C01 volume-mismatch {fmtViol v}"
-      -- C02
       if !amountsOk st then
         out.putStrLn s!"VIOL C02 negative-or-overflow"
-      -- C01 base coin: delta of base total equals delta of emission
       if kind == "commit" then
         match ds.committed with
         | some prev =>
           if !baseDeltaOk prev st then
             out.putStrLn s!"VIOL C01 base-delta baseTotal:{baseTotal prev}->{baseTotal st} emission:{prev.emission}->{st.emission}"
         | none => pure ()
-      out.putStrLn s!"OK {kind} coins={st.coins.length} base={baseTotal st} emission={st.emission}"
-      ds := { ds with committed := some st, nCommits := ds.nCommits + 1 }
+      out.putStrLn s!"OK {kind} coins={st.coins.length} base={baseTotal st} emission={st.emission} modelled={ds.nModelled} unmodelled={ds.nUnmodelled} skipped={ds.nStaleSkipped} oracle={ds.nOracle}"
+      -- resync the model with the committed Go state (EndBlock is not modelled yet)
+      ds := { ds with committed := some st, nCommits := ds.nCommits + 1, model := some { st with rewardsPool := 0 }, touched := [], oracle := [], staleOther := false, pendingMerge := false }
+    else if kind == "begin" then
+      -- BeginBlock is modelled only as "fee pool := 0"; anything it changed on the live projection puts the model out of sync
+      match ds.model with
+      | some m =>
+        if keys.all (fun k => k == "app rewards") then ds := { ds with model := some { m with rewardsPool := 0 } }
+        else ds := { ds with model := some (mergeProjection m d), staleOther := true }
+      | none => pure ()
+    else if kind == "tx" then
+      match ds.model with
+      | some m =>
+        if ds.pendingMerge then
+          ds := { ds with model := some (mergeProjection m d), pendingMerge := false, touched := [] }
+        else
+          for mm in projMismatch m d (keys ++ ds.touched) do
+            out.putStrLn s!"MISMATCH state {mm}"
+          ds := { ds with touched := [] }
+      | none => pure ()
+    out.putStrLn "."
+    out.flush
+    loop h out ds
+  | "B" :: _ =>
+    let a := kv l
+    out.putStrLn "."
+    out.flush
+    loop h out { ds with block := natD (kvGet a "h"), nOps := ds.nOps + 1 }
+  | "D" :: _ =>
+    let a := kv l
+    let goCode := natD (kvGet a "code")
+    let mut ds := { ds with nOps := ds.nOps + 1 }
+    match ds.model with
+    | none => ds := { ds with nStaleSkipped := ds.nStaleSkipped + 1 }
+    | some m =>
+      let t := TxIn.ofKV a
+      let (ds', r0) ← runDeliver h out ds m t 8
+      ds := ds'
+      let r := if ds.staleOther && readsOther t then Except.error (Stop.unmodelled "stale") else r0
+      match r with
+      | .error (.unmodelled _) => ds := { ds with pendingMerge := true, staleOther := true, nUnmodelled := ds.nUnmodelled + 1 }
+      | .error (.need _) => ds := { ds with pendingMerge := true, staleOther := true, nUnmodelled := ds.nUnmodelled + 1 }
+      | .error (.panic w) =>
+        if goCode != 999 then out.putStrLn s!"MISMATCH panic model-predicts-panic={w} go-code={goCode}"
+        ds := { ds with model := none }
+      | .ok o =>
+        ds := { ds with nModelled := ds.nModelled + 1 }
+        if o.code != goCode then
+          out.putStrLn s!"MISMATCH code model={o.code} go={goCode} type={t.typ}"
+          ds := { ds with model := none }
+        else
+          if !balancedB o.plan then out.putStrLn s!"FAULT unbalanced-plan type={t.typ} code={o.code}"
+          match applyChecked m o.plan with
+          | none =>
+            out.putStrLn s!"FAULT plan-side-condition type={t.typ} code={o.code}"
+            ds := { ds with model := none }
+          | some m' =>
+            for (k, v) in o.tags do
+              let g := kvGet a k
+              if g != "" && g != v then out.putStrLn s!"MISMATCH tag {k} model={v} go={g} type={t.typ}"
+            ds := { ds with model := some m', touched := o.plan.flatMap primKeys }
     out.putStrLn "."
     out.flush
     loop h out ds
